@@ -43,11 +43,12 @@ DoScrapeOK == \E h \in Targets, p \in (IF Sample > 0 THEN RandomSubset(1, Payloa
                 Step([R("Scrape") EXCEPT !.h = h, !.ok = TRUE, !.kept = p[1], !.total = p[2]], Scrape(w, h, TRUE, p[1], p[2]))
 DoScrapeFail == \E h \in Targets : Step([R("Scrape") EXCEPT !.h = h], Scrape(w, h, FALSE, 0, 0))
 DoRestart == Step(R("Restart"), Restart(w))
+DoRestartFail == Step(R("RestartReloadFails"), RestartReloadFails(w))
 DoTick    == w.clock < MaxClock /\ Step(R("Tick"), Tick(w))
 DoSetHead == \E n \in {0, 7, 40} : n # w.promHead /\ Step([R("SetHead") EXCEPT !.n = n], SetHead(w, n))
 
 Init == w = Restart(Init0) /\ hist = <<>>     \* a sidecar always loads its (here absent) store at start
-Next == Len(hist) < MaxLen /\ (DoUpdate \/ DoUpdateRej \/ DoScrapeOK \/ DoScrapeFail \/ DoRestart \/ DoTick \/ DoSetHead)
+Next == Len(hist) < MaxLen /\ (DoUpdate \/ DoUpdateRej \/ DoScrapeOK \/ DoScrapeFail \/ DoRestart \/ DoRestartFail \/ DoTick \/ DoSetHead)
 Spec == Init /\ [][Next]_vars
 View == w
 \* generation: a behaviour is exported when it reaches MaxLen (checked as an "invariant", which
@@ -78,9 +79,9 @@ NewStart ==
 \* (a restart resumes what was acknowledged: after rejected updates that may be another - earlier - idle instant)
 InStore == w.store.has /\ w.store.assign = w.assign /\ w.store.idleAt = w.idleAt
 IdleKept ==
-  [][(w.idleAt # -1 /\ w'.assign = <<>> /\ (LastIs("Restart") => InStore)) => w'.idleAt = w.idleAt]_vars
+  [][(w.idleAt # -1 /\ w'.assign = <<>> /\ ((LastIs("Restart") \/ LastIs("RestartReloadFails")) => InStore)) => w'.idleAt = w.idleAt]_vars
 IdleSet ==
-  [][(w.idleAt = -1 /\ w'.assign = <<>> /\ ~LastIs("Restart")) => w'.idleAt = w.clock]_vars
+  [][(w.idleAt = -1 /\ w'.assign = <<>> /\ ~LastIs("Restart") /\ ~LastIs("RestartReloadFails")) => w'.idleAt = w.clock]_vars
 (* C14 on the model *)
 LoadOK ==
   LET rt == RuntimeInfo(w) IN
